@@ -1,6 +1,7 @@
 import BindgenModel.Driver.C03
 import BindgenModel.Driver.C07
 import BindgenModel.Driver.C08
+import BindgenModel.Driver.C05
 /-! `bgmodel`: one request per input line, one answer per output line (lines between `ir-begin`
 and `ir-end` load an IR dump and produce no output). -/
 open BindgenModel
@@ -20,6 +21,7 @@ def dispatch (st : St) (line : String) : St × Option String :=
   | "bf" :: rest => (st, some (Driver.C03.handle rest))
   | ["irderives"] => (st, some (Driver.C08.derives st.ir))
   | ["irchk", seed] => (st, some (Driver.C07.check st.ir (seed.toNat?.getD 0)))
+  | "c05" :: rest => (st, some (Driver.C05.handle rest))
   | _ => (st, some "bad-op")
 
 partial def loop (h : IO.FS.Stream) (out : IO.FS.Stream) (st : St) : IO Unit := do
